@@ -40,6 +40,19 @@ def load_known(pid):
     return findings, fixed
 
 
+def box_point(ob, mode, rnd):
+    """A concrete point of the symbolic box of a CH obligation: lo / hi / mid corner or a seeded pick."""
+    d = {}
+    for a, sp in ob.sym.items():
+        if sp[0] == "bool":
+            d[a] = {"lo": False, "hi": True, "mid": True}.get(mode, rnd.random() < 0.5)
+        elif sp[0] == "int":
+            d[a] = {"lo": sp[1], "hi": sp[2], "mid": (sp[1] + sp[2]) // 2}.get(mode, rnd.randint(sp[1], sp[2]))
+        else:
+            d[a] = {"lo": sp[1], "hi": sp[2], "mid": (sp[1] + sp[2]) / 2}.get(mode, rnd.uniform(sp[1], sp[2]))
+    return d
+
+
 def native_replay(spec, timeout=300):
     """Run a replay spec natively in a fresh process; returns the result string
     ('' = property held), or None on machinery failure."""
@@ -278,7 +291,25 @@ def main(argv):
                   "args": {**args, **ob.fixed}, "obligation": ob.name,
                   "crosshair_message": r.get("message")}
             rep = native_replay(rs) if "args" in r else None
-            if rep is None and "args" not in r:
+            if rep is None and "args" not in r and "NotDeterministic" in str(r.get("message")) and not ob.pre:
+                # CrossHair saw different executions for the same decisions: the code under test keeps state from one
+                # execution to the next (class-level / module-level state).  That is not a verdict; the harness is run
+                # natively, in one process, on several points of the symbolic box one after the other - a reason code from
+                # a real run is reported, otherwise the obligation stays a machinery error.
+                res_nd = native_replay({"property": pid, "kind": "points", "harness": ob.harness,
+                                        "args_list": [{**box_point(ob, m, random.Random(seed + k)), **ob.fixed}
+                                                      for k, m in enumerate(["lo", "hi", "mid", "rnd", "rnd", "rnd", "lo", "hi"])]}, timeout=600)
+                native_runs += 8
+                if res_nd and not any(res_nd["result"].startswith(pf) for pf in known_prefixes.get(ob.name, [])):
+                    rs2 = {"property": pid, "kind": "points", "harness": ob.harness, "obligation": ob.name,
+                           "args_list": [{**box_point(ob, m, random.Random(seed + k)), **ob.fixed}
+                                         for k, m in enumerate(["lo", "hi", "mid", "rnd", "rnd", "rnd", "lo", "hi"])],
+                           "found_by": "native runs of the harness on points of the symbolic box, one after the other in one process, "
+                                       "after CrossHair reported non-deterministic executions (state kept across executions)"}
+                    violations.append((ob, rs2, res_nd["result"] + " [state kept across executions in one process]", r))
+                else:
+                    machinery.append(f"{ob.name}: CrossHair: {r.get('message')} (native points in one process: no violation)")
+            elif rep is None and "args" not in r:
                 machinery.append(f"{ob.name}: cannot parse counterexample: {r.get('message')}")
             elif rep is None:
                 machinery.append(f"{ob.name}: replay failed to run")
